@@ -458,22 +458,18 @@ func tryMutate(ad sigAdapter, d any, site int, tag string) (panicked bool) {
 // cancelAt: the consumer with this index cancels the request context while it is being served (and, if it fails, returns
 // the context's error): every other consumer must still be invoked ("even if an earlier one failed"); -1 = never.
 // seed selects the payload; sites[2*i] / sites[2*i+1] are the places where consumer i writes during / after its call.
-func runFanCase(out *vOut, ad sigAdapter, caps, fail, syncw []bool, inputRO bool, undecl int, cancelAt int, seed uint64, sites []int) {
-	out.Linef("op fan sig=%s caps=%s ro=%d fail=%s syncw=%s undecl=%d cancel=%d", ad.name, bits(caps), vB(inputRO), bits(fail), bits(syncw), undecl, cancelAt)
-	ctx, cancel := context.WithCancel(context.Background())
-	defer cancel()
-	data := ad.newData(seed)
-	sent := ad.marshal(data)
-	if !bytes.Equal(ad.marshal(ad.unmarshal(sent)), sent) {
-		panic("harness: payload is not stable under unmarshal+marshal")
-	}
-	if inputRO {
-		ad.markRO(data)
-	}
-	origPtr := ptrOf(data)
-	clones := map[uintptr]int{}
-	held := make([]any, len(caps))
-	calls := 0
+// rounds > 1: the SAME fan-out consumer object is used for further payloads (other content, the other input mode): nothing
+// may be carried over from one Consume call to the next.
+func runFanCase(out *vOut, ad sigAdapter, caps, fail, syncw []bool, inputRO bool, undecl int, cancelAt int, seed uint64, sites []int, rounds ...int) {
+	var (
+		ctx     context.Context
+		cancel  context.CancelFunc
+		sent    []byte
+		origPtr uintptr
+		clones  map[uintptr]int
+		held    []any
+		calls   int
+	)
 	consume, mutates := ad.build(caps, func(i int, d any) error {
 		calls++
 		held[i] = d
@@ -508,8 +504,41 @@ func runFanCase(out *vOut, ad sigAdapter, caps, fail, syncw []bool, inputRO bool
 		}
 		return nil
 	})
+	nRounds := 1
+	if len(rounds) > 0 {
+		nRounds = rounds[0]
+	}
+	for round := 0; round < nRounds; round++ {
+		if round > 0 {
+			inputRO = !inputRO
+			seed += 7919
+		}
+		runFanRound(out, ad, caps, fail, syncw, inputRO, undecl, cancelAt, seed, sites, round, consume, mutates,
+			func(c context.Context, cf context.CancelFunc, s []byte, o uintptr) {
+				ctx, cancel, sent, origPtr = c, cf, s, o
+				clones, held, calls = map[uintptr]int{}, make([]any, len(caps)), 0
+			}, func() ([]any, int) { return held, calls })
+	}
+}
+
+func runFanRound(out *vOut, ad sigAdapter, caps, fail, syncw []bool, inputRO bool, undecl int, cancelAt int, seed uint64, sites []int, round int,
+	consume func(context.Context, any) error, mutates bool,
+	arm func(context.Context, context.CancelFunc, []byte, uintptr), state func() ([]any, int)) {
+	out.Linef("op fan sig=%s caps=%s ro=%d fail=%s syncw=%s undecl=%d cancel=%d round=%d", ad.name, bits(caps), vB(inputRO), bits(fail), bits(syncw), undecl, cancelAt, round)
+	ctx, cancel := context.WithCancel(context.Background())
+	defer cancel()
+	data := ad.newData(seed)
+	sent := ad.marshal(data)
+	if !bytes.Equal(ad.marshal(ad.unmarshal(sent)), sent) {
+		panic("harness: payload is not stable under unmarshal+marshal")
+	}
+	if inputRO {
+		ad.markRO(data)
+	}
+	arm(ctx, cancel, sent, ptrOf(data))
 	out.Linef("obs cap %d", vB(mutates))
 	err := consume(ctx, data)
+	held, calls := state()
 	out.Linef("obs err %d", len(multierr.Errors(err)))
 	nfail := 0
 	for _, f := range fail {
@@ -580,6 +609,10 @@ func TestVerifC06Fanout(t *testing.T) {
 	for _, c := range vCases(n) {
 		rnd := vRand(c)
 		k := 1 + rnd.IntN(7)
+		if c%16 == 7 {
+			// wide fan-outs (8..40 consumers): beyond the exhaustive scope and the usual sizes
+			k = 8 + (c/16)%33
+		}
 		caps, fail, syncw := make([]bool, k), make([]bool, k), make([]bool, k)
 		mixed := [2]bool{}
 		for i := range caps {
@@ -612,7 +645,14 @@ func TestVerifC06Fanout(t *testing.T) {
 			sites[i] = rnd.IntN(nSites)
 		}
 		for _, ad := range ads {
-			runFanCase(out, ad, caps, fail, syncw, inputRO, undecl, cancelAt, seed, sites)
+			if c%4 == 1 {
+				runFanCase(out, ad, caps, fail, syncw, inputRO, undecl, cancelAt, seed, sites, 2+c%2)
+			} else {
+				runFanCase(out, ad, caps, fail, syncw, inputRO, undecl, cancelAt, seed, sites)
+			}
+		}
+		if c%4 == 1 {
+			out.Linef("stat reused_fanout 1")
 		}
 		out.Linef("stat site %d", sites[0])
 		if mixed[0] && mixed[1] {
